@@ -189,10 +189,8 @@ theorem C02_failure_contained_handler (c : Cfg) (body K : List Instr) (s : Sig) 
                else .enq (c.L.route .loop) { id := c.nextSid + 1, cls := .exception, prio := -20, src := .loop }) :: c.tr ∧
       c'.L.handlers = c.L.handlers ∧ c'.L.levels = c.L.levels ∧ c'.L.active = c.L.active ∧
       c'.L.runLoop = c.L.runLoop ∧ c'.L.forceQuit = c.L.forceQuit ∧ c'.L.tickets = c.L.tickets ∧
-      c'.A = c.A ∧ c'.log = c.log := by
-  refine ⟨_, raise_err_caught c body _ .catchHandler .loop hcode hbody rfl, rfl, ?_, ?_⟩
-  · simp only [enqueue_eq, enqT, excSig]
-  · simp [enqueue_eq]
+      c'.A = c.A ∧ c'.log = c.log :=
+  raise_err_handler c body K s i hcode hbody
 
 /-- … and without any catcher below, the exception ends the run -/
 theorem C02_failure_uncaught (c : Cfg) (h : ∀ i ∈ c.code, errCatch i = none) :
